@@ -21,6 +21,7 @@ RULES = {
     "R06.1": "Pending only after (store waker; pop -> None) in one lock region after the last lock()",
     "R06.2": "push-then-wake under the lock on every path of insert / wake_by_ref; insert only called through a guard",
     "R06.3": "fresh ticket (fetch_add) on every heap push of a delivered/inserted peer; Ord::cmp reversed on tickets; PartialOrd = Some(cmp)",
+    "R06.4": "bounded number of inner polls per poll_next call: counter on the Pending arm, exit = wake own waker + Pending",
 }
 
 
@@ -41,6 +42,7 @@ def run(ctx, f, rep):
         rep.check(not b.j.get("coroutine_kind") and not b.yields(), "R06.1", "R06.1|plain-fn", "poll_next is a plain function (no suspension point inside)", b.loc())
         ps = pathq.paths(f, b, max_visits=3)
         npend = 0
+        yields_seen = []
         for p in ps:
             if p.end != "return" or not is_pending(p):
                 continue
@@ -69,10 +71,37 @@ def run(ctx, f, rep):
                         is_some_clone, pop_none, s_i < p_i, same_region)
                 elif pp and not st:
                     why = "heap tested but the receiver's waker is not (re)stored after the last lock acquisition on this path"
+            # alternative legitimate Pending: the function wakes its own caller first (it will be polled again at once)
+            self_wake = [i for i, ev in enumerate(p.events) if ev.kind == "call" and short(ev.name) in ("wake_by_ref", "wake") and "Waker" in ev.name and ev.args and
+                         pathq.mentions_call(ev.args[0], lambda x: short(x[1]) == "waker" and x[2] and x[2][0] == ("arg", 2)) is not None]
+            if not ok and self_wake and stores:
+                ok = True
+                why = "Pending after waking the caller's own waker (yield to the executor, re-polled immediately)"
+                yields_seen.append(1)
             rep.check(ok, "R06.1", "R06.1|%s|pending-after-publish-and-empty" % b.path,
                       "Pending is returned only after publishing the waker and then finding the heap empty under one lock (%s)" % why,
                       b.loc(p.blocks[-1][1]), detail="path decisions: %s" % [(show(e)[:50], c) for e, c, _, _ in p.conds][-5:])
         rep.floor("R06.1", "paths of poll_next that return Pending", npend, 1)
+        # R06.4: bounded work per call. A stream that wakes its waker while being polled (tokio's cooperative budget) is queued
+        # again at once; re-polling it in the same call never lets the executor run. The Pending arm must count and, beyond a
+        # bound, wake the caller and return Pending.
+        bounded = False
+        for p in ps:
+            inner = [(i, ev) for i, ev in enumerate(p.events) if ev.kind == "call" and short(ev.name) == "poll_next"]
+            for (i, ev) in inner:
+                pend = any(e[0] == "discr" and e[1] == ev.result and c == ("eq", 1) for (e, c, _, _) in p.conds)
+                if not pend:
+                    continue
+                later = p.conds[ev.ncond:]
+                def is_count(x):
+                    # a per-call counter: folded to a constant >= 1 on an enumerated path, or still symbolic `n + 1`
+                    return (x[0] == "int" and x[1] >= 1) or any(isinstance(y, tuple) and y and y[0] == "binop" and y[1] == "Add" and y[3] == ("int", 1) for y in walk_expr(x))
+                counted = any(e[0] == "binop" and e[1] in ("Gt", "Ge", "Lt", "Le") and (is_count(e[2]) or is_count(e[3])) for (e, c, _, _) in later)
+                if counted:
+                    bounded = True
+        rep.check(bounded and bool(yields_seen), "R06.4", "R06.4|%s|bounded-polls-per-call" % b.path,
+                  "after an inner stream answered Pending the loop is bounded by a counter (%s) and there is an exit that wakes the caller and returns Pending (%s): "
+                  "a self-waking stream cannot make one poll_next call spin forever" % (bounded, bool(yields_seen)), b.loc())
         # R06.3: push after a delivery carries a fresh ticket
         fresh = 0
         for p in ps:
